@@ -837,6 +837,14 @@ Proof.
   now apply parse_tokens_roundtrip.
 Qed.
 
+(** The rendering determines what it denotes: two well-formed surface trees with the same token
+    rendering have the same AST (the minimal-parenthesis rendering is unambiguous). *)
+Lemma raw_unambiguous t1 t2 : wf_st t1 -> wf_st t2 -> raw t1 = raw t2 -> ast t1 = ast t2.
+Proof.
+  intros W1 W2 E. pose proof (parse_tokens_roundtrip t1 W1) as H1. pose proof (parse_tokens_roundtrip t2 W2) as H2.
+  rewrite E in H1. rewrite H1 in H2. now injection H2.
+Qed.
+
 (** ** C12: a spelled string / bytes literal compiles to the literal value *)
 Lemma quoted_lit q body : (q = 34 \/ q = 39)%N -> body_ok (S (length body)) q body = true ->
   quoted_okb (q :: body ++ [q]) = true.
